@@ -1120,3 +1120,17 @@ package keeper
 
 //@ func Keeper.SetConsumerValSet inline
 //@ ensures [replaces-the-whole-record] $setValSet.called && $setValSet.prefix == k.GetConsumerChainConsensusValidatorsKey(ctx, consumerId) && $setValSet.nextValidators == nextValidators && result == $setValSet.ret
+
+// ---------------------------------------------------------------- C06 / C17 / C12: genesis export mirrors the stored state
+
+//@ func Keeper.GetAllValsetUpdateBlockHeights pure
+//@ ensures [frame] S == old(S) && E == old(E) && X == old(X)
+
+//@ func Keeper.ExportGenesis
+//@ loop 1 invariant [idx] 0 <= _i && _i <= len(launchedConsumerIds) && len(consumerStates) == _i
+//@ loop 1 invariant [pure] S == old(S) && E == old(E) && X == old(X)
+//@ loop 1 step [consumer-state-mirrors-store] len(consumerStates) == prev(len(consumerStates)) + 1 && consumerStates[len(consumerStates) - 1].ChainId == consumerId && consumerStates[len(consumerStates) - 1].ClientId == k.GetConsumerClientId(ctx, consumerId).0 && consumerStates[len(consumerStates) - 1].Phase == k.GetConsumerPhase(ctx, consumerId) && (k.GetConsumerIdToChannelId(ctx, consumerId).1 ==> consumerStates[len(consumerStates) - 1].ChannelId == k.GetConsumerIdToChannelId(ctx, consumerId).0 && consumerStates[len(consumerStates) - 1].InitialHeight == k.GetInitChainHeight(ctx, consumerId).0)
+//@ loop 2 invariant [pure] S == old(S) && E == old(E) && X == old(X)
+//@ ensures [read-only] S == old(S) && E == old(E) && X == old(X)
+//@ ensures [key-assignment-exported] result != nil && result.ValidatorConsumerPubkeys == k.GetAllValidatorConsumerPubKeys(ctx, nil) && result.ValidatorsByConsumerAddr == k.GetAllValidatorsByConsumerAddr(ctx, nil) && result.ConsumerAddrsToPruneV2 == consumerAddrsToPrune
+//@ ensures [ids-and-heights-exported] result != nil && result.ValsetUpdateId == k.GetValidatorSetUpdateId(ctx) && result.ValsetUpdateIdToHeight == k.GetAllValsetUpdateBlockHeights(ctx) && result.ConsumerStates == consumerStates
